@@ -165,12 +165,19 @@ class TreeVals:
         if it.kind in ('plist', 'keylist'):
             l = it.t
             ex.fact(LEN(l) >= 0)
-            if it.kind == 'keylist' or it.elt == 'val':
+            if it.kind == 'keylist':
+                off = it.f.get('off', 0)
+                return If(LEN(l) - off >= 0, LEN(l) - off, 0), (lambda st2, j: V(VA(l, off + j)))
+            if it.elt == 'val':
                 return LEN(l), (lambda st2, j: V(VA(l, j)))
             return LEN(l), (lambda st2, j: SV('tupat', None, l=l, i=j))
         return NotImplemented
 
     def subscript(self, ex, st, e, recv, idx):
+        if recv.kind == 'keylist' and idx.kind == 'slice' and idx.hi is None and idx.step is None and idx.lo is not None and idx.lo.kind == 'int':
+            lo = simplify(idx.lo.t)
+            if z3.is_int_value(lo) and lo.as_long() >= 0:
+                return SV('keylist', recv.t, off=recv.f.get('off', 0) + lo.as_long())
         if recv.kind == 'val' and idx.kind == 'val':
             ex.raise_if(st, Not(HAS(recv.t, idx.t)), 'KeyError')
             c = CHILD(recv.t, idx.t)
@@ -196,5 +203,90 @@ class TreeVals:
 
     def is_none(self, ex, st, v):
         if v.kind in ('val', 'plist', 'listlit', 'keylist', 'type', 'typeof'):
+            return BoolVal(False)
+        return NotImplemented
+
+
+# ================================================================================================ mutable trees
+ISB = Function('is_branch', IntSort(), BoolSort())      # isinstance(v, types)
+IGN = Function('ignored', IntSort(), BoolSort())        # in_(v, ignore)
+ITEM = Function('item_at', IntSort(), IntSort())
+
+
+def R(term):
+    return SV('ref', zi(term))
+
+
+class TreeHeap:
+    """objects are Int ids; st.ghost['Hhas'] / ['Hget'] : Array (obj, key) -> Bool / Int is the heap, st.ghost['next'] the allocation pointer.
+    `ctor`: the local name that is called to create a new branch (base); `types`: the name isinstance is tested against"""
+
+    def __init__(self, ctor='base', types='types'):
+        self.ctor, self.types = ctor, types
+
+    def pre_call(self, ex, st, e):
+        if isinstance(e.func, ast.Name) and e.func.id == 'isinstance' and len(e.args) == 2 and isinstance(e.args[1], ast.Name) and e.args[1].id == self.types:
+            v = ex.eval(st, e.args[0])
+            if v.kind == 'ref':
+                ex.use('model:isinstance(v, types) is a predicate of the object identity (an object never changes its class)')
+                return B(ISB(v.t))
+        return NotImplemented
+
+    def call(self, ex, st, e, fname, args, kwargs):
+        if fname == self.ctor and not args and not kwargs:
+            nw = st.ghost['next']
+            st.ghost['next'] = nw + 1
+            ex.use('model:%s() allocates a new object: its identity is the allocation pointer, which no existing object or reference reaches' % self.ctor)
+            return R(nw)
+        if fname == 'len' and len(args) == 1 and args[0].kind == 'reflist':
+            return I(args[0].n)
+        if fname == 'in_' and len(args) == 2 and args[0].kind == 'ref':
+            ex.use('assumed contract:in_(x, ignore) is a pure membership test (predicate `ignored` of x)')
+            return B(IGN(args[0].t))
+        return NotImplemented
+
+    def compare(self, ex, st, e, op, a, b):
+        if op in ('In', 'NotIn') and a.kind == 'ref' and b.kind == 'ref':
+            r = Select(st.ghost['Hhas'], b.t, a.t)
+            return r if op == 'In' else Not(r)
+        return NotImplemented
+
+    def subscript(self, ex, st, e, recv, idx):
+        if recv.kind == 'ref' and idx.kind == 'ref':
+            ex.raise_if(st, Not(Select(st.ghost['Hhas'], recv.t, idx.t)), 'KeyError')
+            return R(Select(st.ghost['Hget'], recv.t, idx.t))
+        if recv.kind == 'reflist' and idx.kind == 'slice' and idx.lo is None and idx.step is None and idx.hi is not None and idx.hi.kind == 'int':
+            h = simplify(idx.hi.t)
+            if z3.is_int_value(h) and h.as_long() < 0:
+                n2 = recv.n + h.as_long()
+                return SV('reflist', None, n=If(n2 >= 0, n2, 0), off=recv.off)
+        if recv.kind == 'reflist' and idx.kind == 'int':
+            h = simplify(idx.t)
+            if z3.is_int_value(h):
+                k = h.as_long()
+                pos = recv.n + k if k < 0 else IntVal(k)
+                ex.raise_if(st, Not(And(0 <= pos, pos < recv.n)), 'IndexError')
+                return R(ITEM(recv.off + pos))
+        return NotImplemented
+
+    def iterate(self, ex, st, it):
+        if it.kind == 'reflist':
+            return it.n, (lambda st2, j: R(ITEM(it.off + j)))
+        return NotImplemented
+
+    def store_subscript(self, ex, st, tg, recv, idx, v):
+        if recv.kind == 'ref' and idx.kind == 'ref' and v.kind == 'ref':
+            st.ghost['Hhas'] = Store(st.ghost['Hhas'], recv.t, idx.t, BoolVal(True))
+            st.ghost['Hget'] = Store(st.ghost['Hget'], recv.t, idx.t, v.t)
+            return None
+        return NotImplemented
+
+    def fresh_like(self, ex, st, name, v):
+        if v.kind == 'ref':
+            return R(fresh_int(name))
+        return NotImplemented
+
+    def is_none(self, ex, st, v):
+        if v.kind in ('ref', 'reflist'):
             return BoolVal(False)
         return NotImplemented
